@@ -120,6 +120,30 @@ class Seq:
     def copy(self):
         return Seq(list(self))
 
+    # list's in-place operations mutate the receiver (aliases see the change), exactly as for a real list
+    def __iadd__(self, xs):
+        self.extend(xs)
+        return self
+
+    def __imul__(self, k):
+        raise Unsupported("in-place repetition of a symbolic sequence")
+
+    def insert(self, k, x):
+        if self.abstract:
+            raise Unsupported("list.insert into an abstract sequence (order is abstracted)")
+        ctx().stores.append(("seq", self, "insert"))
+        self.segs.insert(k, ("e", x))
+
+    def clear(self):
+        ctx().stores.append(("seq", self, "clear"))
+        del self.segs[:]
+
+    def remove(self, *a, **k): raise Unsupported("list.remove on a symbolic sequence")
+    def pop(self, *a, **k): raise Unsupported("list.pop on a symbolic sequence")
+    def sort(self, *a, **k): raise Unsupported("list.sort on a symbolic sequence")
+    def reverse(self, *a, **k): raise Unsupported("list.reverse on a symbolic sequence")
+    def __delitem__(self, *a, **k): raise Unsupported("del on a symbolic sequence")
+
     def __getitem__(self, k):
         if isi(k, slice):
             if self.abstract:
